@@ -1,8 +1,122 @@
-(* C10 — statements only; see GCS/*Proofs.v *)
-From Coq Require Import List NArith ZArith Bool.
-From Emu.GCS Require Import Model CondsSpec CondsProofs HandlerProofs.
-Theorem C10_failed_request_frame : forall s r,
-  let '(s', rsp) := handle s r in
-  is_success (r_status rsp) = false -> s_buckets s' = s_buckets s /\ s_clock s' = s_clock s.
-Proof. exact failed_request_frame. Qed.
-Print Assumptions C10_failed_request_frame.
+(* C10 — GCS: generation / metageneration laws.
+   Only statements here; proofs are in GCS/GenerationProofs.v. *)
+From Coq Require Import List NArith ZArith Bool Sorted.
+Import ListNotations.
+From Emu.Common Require Import Bytes Str.
+From Emu.GCS Require Import Model UploadProofs GenerationProofs.
+Local Open Scope Z_scope.
+
+(* every stored object's generation is at most the clock: an invariant of [handle] *)
+Theorem C10_gens_bounded_init : gens_bounded init_state.
+Proof. exact gens_bounded_init. Qed.
+Print Assumptions C10_gens_bounded_init.
+
+Theorem C10_gens_bounded_preserved : forall s r, gens_bounded s -> gens_bounded (fst (handle s r)).
+Proof. exact gens_bounded_preserved. Qed.
+Print Assumptions C10_gens_bounded_preserved.
+
+Theorem C10_gens_bounded_find : forall s b n o,
+  gens_bounded s -> find_obj s b n = Some o -> o_gen o <= s_clock s.
+Proof. exact gens_bounded_find. Qed.
+Print Assumptions C10_gens_bounded_find.
+
+(* the clock never decreases, and moves by at most one per request *)
+Theorem C10_clock_monotone : forall s r, s_clock s <= s_clock (fst (handle s r)).
+Proof. exact clock_monotone. Qed.
+Print Assumptions C10_clock_monotone.
+
+Theorem C10_clock_step : forall s r,
+  s_clock (fst (handle s r)) = s_clock s \/ s_clock (fst (handle s r)) = s_clock s + 1.
+Proof. exact clock_step. Qed.
+Print Assumptions C10_clock_step.
+
+Theorem C10_clock_monotone_run : forall rs s, s_clock s <= s_clock (fst (run s rs)).
+Proof. exact clock_monotone_run. Qed.
+Print Assumptions C10_clock_monotone_run.
+
+(* every content write answered 200 (media, multipart, resumable completion, compose, copy
+   destination) stores an object with generation clock+1 and metageneration 1 *)
+Theorem C10_content_write_fresh_generation : forall s r,
+  is_content_write r = true -> r_status (snd (handle s r)) = 200 ->
+  exists b n o, targets s r = [(b, n)]
+    /\ find_obj (fst (handle s r)) b n = Some o
+    /\ o_gen o = s_clock s + 1 /\ o_metagen o = 1
+    /\ s_clock (fst (handle s r)) = s_clock s + 1.
+Proof. exact content_write_fresh_generation. Qed.
+Print Assumptions C10_content_write_fresh_generation.
+
+(* ... strictly above every generation present before the request *)
+Theorem C10_fresh_generation_exceeds_all : forall s r,
+  gens_bounded s -> is_content_write r = true -> r_status (snd (handle s r)) = 200 ->
+  exists b n o, targets s r = [(b, n)] /\ find_obj (fst (handle s r)) b n = Some o /\ o_metagen o = 1
+    /\ forall b0 n0 o0, find_obj s b0 n0 = Some o0 -> o_gen o0 < o_gen o.
+Proof. exact fresh_generation_exceeds_all. Qed.
+Print Assumptions C10_fresh_generation_exceeds_all.
+
+(* ... and above everything any earlier state of the run held *)
+Theorem C10_fresh_generation_exceeds_history : forall s0 rs r,
+  gens_bounded s0 ->
+  let s := fst (run s0 rs) in
+  is_content_write r = true -> r_status (snd (handle s r)) = 200 ->
+  exists b n o, targets s r = [(b, n)] /\ find_obj (fst (handle s r)) b n = Some o
+    /\ forall rsA rsB, rs = rsA ++ rsB ->
+       forall b0 n0 o0, find_obj (fst (run s0 rsA)) b0 n0 = Some o0 -> o_gen o0 < o_gen o.
+Proof. exact fresh_generation_exceeds_history. Qed.
+Print Assumptions C10_fresh_generation_exceeds_history.
+
+(* the generations written along any run (from any state) are strictly increasing *)
+Theorem C10_generations_strictly_increasing : forall rs s, StronglySorted Z.lt (run_gens s rs).
+Proof. exact generations_strictly_increasing. Qed.
+Print Assumptions C10_generations_strictly_increasing.
+
+Theorem C10_written_gen_spec : forall s r,
+  match written_gen s r with
+  | Some g => g = s_clock s + 1 /\ s_clock (fst (handle s r)) = g
+  | None => is_content_write r = false \/ r_status (snd (handle s r)) <> 200
+  end.
+Proof. exact written_gen_spec. Qed.
+Print Assumptions C10_written_gen_spec.
+
+Theorem C10_generations_from_init : forall rs,
+  StronglySorted Z.lt (run_gens init_state rs) /\ Forall (fun g => clock0 < g) (run_gens init_state rs)
+  /\ gens_bounded (fst (run init_state rs)).
+Proof. exact generations_from_init. Qed.
+Print Assumptions C10_generations_from_init.
+
+(* a patch answered 200 bumps the metageneration by one and sets content type / metadata as
+   supplied; data, generation and md5 are kept, the read-only fields of the patch are ignored,
+   no generation is handed out and no other object changes *)
+Theorem C10_patch_bumps_metagen_only : forall s b n p cp,
+  r_status (snd (handle s (RPatch b n p cp))) = 200 ->
+  exists o, find_obj s b n = Some o
+    /\ find_obj (fst (handle s (RPatch b n p cp))) b n
+       = Some (mkObj (o_data o)
+                     (match pt_ctype p with Some t => t | None => o_ctype o end)
+                     (o_gen o) (o_metagen o + 1) (o_md5 o)
+                     (match pt_meta p with Some kv => merge_meta (o_meta o) kv | None => o_meta o end))
+    /\ s_clock (fst (handle s (RPatch b n p cp))) = s_clock s
+    /\ forall b' n', (b', n') <> (b, n) ->
+         find_obj (fst (handle s (RPatch b n p cp))) b' n' = find_obj s b' n'.
+Proof. exact patch_bumps_metagen_only. Qed.
+Print Assumptions C10_patch_bumps_metagen_only.
+
+(* reads return the state unchanged *)
+Theorem C10_reads_change_nothing : forall s r, is_read r = true -> fst (handle s r) = s.
+Proof. exact reads_change_nothing. Qed.
+Print Assumptions C10_reads_change_nothing.
+
+(* non-vacuity: upload, overwrite, read, compose, copy, patch *)
+Example C10_nonvacuous :
+  let cp := mkCP (PRaw []) (PRaw []) (PRaw []) (PRaw []) in
+  let bk := [98]%N in
+  let rs := [RUploadMedia bk [120]%N [116]%N [1; 2; 3]%N cp;
+             RUploadMedia bk [120]%N [116]%N [4]%N cp;
+             RGetMeta bk [120]%N;
+             RCompose bk [122]%N false [([120]%N, PRaw [])] None cp;
+             RCopy bk [120]%N bk [121]%N;
+             RPatch bk [120]%N (mkPatch false (Some [117]%N) None None None None) cp] in
+  run_gens init_state rs = [clock0 + 1; clock0 + 2; clock0 + 3; clock0 + 4]
+  /\ map r_status (snd (run init_state rs)) = [200; 200; 200; 200; 200; 200]
+  /\ option_map o_metagen (find_obj (fst (run init_state rs)) bk [120]%N) = Some 2
+  /\ option_map o_gen (find_obj (fst (run init_state rs)) bk [120]%N) = Some (clock0 + 2).
+Proof. exact generations_example. Qed.
